@@ -7,6 +7,7 @@ import ast
 from ..cfg import CFG
 from ..core import AnalysisError
 from ..defuse import DefUse, Terms, show, walk_term
+from ..defuse import key as tkey
 from ..tutil import find_calls, lin, np_call, strip_conv
 
 EXPLANATION = (
@@ -91,7 +92,7 @@ def _check_twin(ctx, f):
         return ("delegates", rt[1])
     ctx.require(rt[0] == "bin" and rt[1] == "/",
                 f"{f.qual}: calibration is not a quotient: {show(rt, 160)}")
-    key = (lambda x: show(strip_conv(x), 600))
+    key = (lambda x: tkey(strip_conv(x), 600))
     num, den = lin(rt[2], key), lin(rt[3], key)
     s_key = key(("param", p_scores))
     others_n = {k: v for k, v in num.atoms.items() if k != s_key}
